@@ -260,6 +260,24 @@ class Inside:
             out.append({"pid": int(p), "h": owner, "argc": argc})
         return sorted(out, key=lambda x: x["pid"])
 
+    def settle(self):
+        """a SIGKILL sent by `disable` is delivered asynchronously: wait until no service process has one pending"""
+        for _ in range(400):
+            dying = False
+            for sv in self.services():
+                try:
+                    txt = open("/proc/%d/status" % sv["pid"]).read()
+                except OSError:
+                    continue
+                for key in ("SigPnd", "ShdPnd"):
+                    m = re.search(r"^%s:\s*([0-9a-f]+)" % key, txt, re.M)
+                    if m and int(m.group(1), 16) & 0x100:
+                        dying = True
+            if not dying:
+                return
+            time.sleep(0.01)
+        self.die("a killed service process did not go away", 4)
+
     def kill_services(self):
         for _ in range(50):
             sv = self.services()
@@ -345,6 +363,7 @@ class Inside:
             p.kill()
             self.die("handler command %s timed out" % c, 4)
         out.close()
+        self.settle()
         post = self.snapshot()
         new = [s for s in post["svcs"] if s["pid"] not in [x["pid"] for x in pre["svcs"]]]
         if new:
@@ -837,7 +856,7 @@ def _run(c):
                  ("h2", "enable", "2"), ("h1", "disable", "1"), ("h1", "install", "2")]]
     w_os = start_worker("os", bindir, setup_bin, [{"id": "unsupported-os", "installed": "x0", "steps": os_steps,
                                                   "seqmap": {"1": "4", "2": "9"}, "os": "debian"}])
-    nw = 6
+    nw = 10 if thorough else 6
     jobs = []
     for b in enum:
         pool = SEQ_POOL[rnd.randrange(len(SEQ_POOL))]
@@ -891,28 +910,42 @@ def _run(c):
             raise util.ToolError("model-conformant command sequences rejected by ExtHandlerTrace (%s %s): "
                                  "ExtHandler.tla and ExtHandlerTrace.tla disagree" % (found, why))
         c.traces_validated += len(observed) - len(suspects)
-    # every divergence from the model is decided against the properties; a rejection must reproduce
-    for bid, diffs in suspects[:12]:
-        r = observed[bid]
-        found, why = judge(c, rows_of(r["init"], r["steps"]), "x02_div_" + bid)
-        if not found and not why:
-            drift.append({"cmds": [(s["h"], s["c"], s["seq"]) for s in r["steps"]][:diffs[0][0] + 1],
-                          "component": diffs[0][1], "expected": diffs[0][2], "got": diffs[0][3]})
-            c.traces_validated += 1
+    # every divergence from the model is decided against the properties: in chunks first (one trace per chunk), then
+    # the members of a rejected chunk one by one; a rejection must reproduce when the sequence is executed again
+    rows_by = {bid: rows_of(observed[bid]["init"], observed[bid]["steps"]) for bid, _ in suspects}
+    chunks = [suspects[i:i + 40] for i in range(0, len(suspects), 40)]
+    res = judge_many(c, [(i, [r for bid, _ in ch for r in rows_by[bid]], "x02_divchunk%d" % i) for i, ch in enumerate(chunks)])
+    rejected = []
+    for i, ch in enumerate(chunks):
+        if res[i] == ([], ""):
+            c.traces_validated += len(ch)
+            for bid, diffs in ch[:3]:
+                drift.append({"cmds": [(s["h"], s["c"], s["seq"]) for s in observed[bid]["steps"]][:diffs[0][0] + 1],
+                              "component": diffs[0][1], "expected": diffs[0][2], "got": diffs[0][3]})
+        else:
+            one = judge_many(c, [(bid, rows_by[bid], "x02_div_" + bid) for bid, _ in ch])
+            for bid, diffs in ch:
+                if one[bid] == ([], ""):
+                    c.traces_validated += 1
+                else:
+                    rejected.append((bid, diffs, one[bid]))
+    seen_sig = set()
+    for bid, diffs, (found, why) in rejected:
+        cmds = [(s["h"], s["c"], s["seq"]) for s in observed[bid]["steps"]]
+        kind = FINDING_OF[found[0]] if found else "property"
+        sig = {"kind": kind, "broken": why or found[0], "cmd": cmds[diffs[0][0]][1], "component": diffs[0][1]}
+        key = json.dumps(sig, sort_keys=True)
+        if key in seen_sig or len(seen_sig) >= 6:
             continue
-        w2 = start_worker("again", bindir, setup_bin, [job_by_id[bid]])
-        r2 = finish_worker(w2, 600)[0]
+        seen_sig.add(key)
+        r2 = finish_worker(start_worker("again", bindir, setup_bin, [job_by_id[bid]]), 600)[0]
         found2, why2 = judge(c, rows_of(r2["init"], r2["steps"]), "x02_div2_" + bid)
         if (found2, why2) != (found, why):
             raise util.ToolError("unreproduced rejection of %s: %s %s then %s %s" % (bid, found, why, found2, why2))
-        cmds = [(s["h"], s["c"], s["seq"]) for s in r["steps"]]
-        kind = FINDING_OF[found[0]] if found else "property"
         c.violation("handler command sequence %s diverges from ExtHandler.tla at command %d (%s: expected %r, got %r) and "
                     "is rejected by the trace specification: %s" % (cmds, diffs[0][0] + 1, diffs[0][1], diffs[0][2], diffs[0][3], why or found),
-                    {"kind": kind, "broken": why or found[0], "cmd": cmds[diffs[0][0]][1], "component": diffs[0][1]},
-                    {"mode": "enum", "beh": job_by_id[bid], "observed": r2["steps"]})
-    if len(suspects) > 12:
-        c.extra["divergent_sequences_not_individually_judged"] = len(suspects) - 12
+                    sig, {"mode": "enum", "beh": job_by_id[bid], "observed": r2["steps"]})
+    c.extra["divergent_command_sequences"] = {"diverging_from_model": len(suspects), "rejected_by_properties": len(rejected)}
 
     # 5. collect: unsupported OS
     r = finish_worker(w_os, 300)[0]
@@ -976,7 +1009,7 @@ def _run(c):
             dd = da[0] if da else (len(steps) - 1, "?", None, None)
             c.violation("real service loop, scenario %s: rejected by the trace specification (%s); first divergence from "
                         "ExtHandler.tla at step %d (%s): expected %r, got %r" % (name, wa, dd[0] + 1, dd[1], dd[2], dd[3]),
-                        {"kind": "property", "broken": wa, "scenario": name, "component": dd[1]},
+                        {"kind": "property", "broken": wa, "component": dd[1]},
                         {"mode": "script", "scenario": name, "installed": inst, "steps": steps,
                          "observed": [{k: v for k, v in o.items() if k != "snap"} for o in r["steps"]]})
     # the scenarios must have exercised what they are for (anti-vacuity of the binding)
@@ -985,8 +1018,9 @@ def _run(c):
     need = [("upgrade-good", "purge"), ("upgrade-good", "install"), ("update", "install")]
     if thorough:
         need.append(("rollback", "restore"))
+    other = [v for v in c.violations if v["signature"].get("kind") not in FINDING_OF.values()]
     for n, call in need:
-        if call not in flat(n):
+        if call not in flat(n) and not other:
             raise util.ToolError("vacuity: scenario %s never reached `%s` (calls %s)" % (n, call, ls[n]["setup_calls"]))
     r = loop_obs[("upgrade-good", "a")]
     c.sample({"scenario": "upgrade-good", "steps": [
@@ -1000,16 +1034,20 @@ def _run(c):
     # 7. the trace specification binds: corrupted recordings must be rejected
     good = rows_of(loop_obs[("upgrade-good", "a")]["init"], loop_obs[("upgrade-good", "a")]["steps"])
     tests = []
-    k = [i for i, x in enumerate(good) if x["e"] == "iter" and "purge" in x["calls"]][0]
-    bad = json.loads(json.dumps(good[:k + 1]))
-    bad[k]["report"] = "transitioning"
-    tests.append(("purge while Transitioning", bad, "P_RollbackOnError"))
-    bad = json.loads(json.dumps(good[:2]))
-    bad[1]["changed"] = bad[1]["changed"] + [{"h": "h1", "name": "2" if bad[1]["seq"] == "1" else "1", "infolder": True, "v": "transitioning"}]
-    tests.append(("enable writes another number's status", bad, "P_StatusForCurrentSeq"))
-    bad = json.loads(json.dumps(good[:2]))
-    bad[1]["tag"] = True
-    tests.append(("update.tag after enable", bad, "P_UpdateTagLifecycle"))
+    if judged[("upgrade-good", "a")] != ([], ""):
+        good = []                   # the reference recording itself was rejected (reported above): nothing to corrupt
+    ks = [i for i, x in enumerate(good) if x["e"] == "iter" and "purge" in x["calls"]]
+    if good and ks:
+        k = ks[0]
+        bad = json.loads(json.dumps(good[:k + 1]))
+        bad[k]["report"] = "transitioning"
+        tests.append(("purge while Transitioning", bad, "P_RollbackOnError"))
+        bad = json.loads(json.dumps(good[:2]))
+        bad[1]["changed"] = bad[1]["changed"] + [{"h": "h1", "name": "2" if bad[1]["seq"] == "1" else "1", "infolder": True, "v": "transitioning"}]
+        tests.append(("enable writes another number's status", bad, "P_StatusForCurrentSeq"))
+        bad = json.loads(json.dumps(good[:2]))
+        bad[1]["tag"] = True
+        tests.append(("update.tag after enable", bad, "P_UpdateTagLifecycle"))
     res = judge_many(c, [(t[0], t[1], "x02_selftest%d" % i) for i, t in enumerate(tests)])
     for what, rows, inv in tests:
         found, why = res[what]
